@@ -4441,19 +4441,11 @@ impl NonLocals {
     }
 
     fn add_wildcard_import(&mut self, new_import: KValue) {
-        let already_imported = self
-            .wildcard_imports
-            .as_ref()
-            .and_then(|imports| {
-                imports
-                    .iter()
-                    .find(|import| import.is_same_instance(&new_import))
-            })
-            .is_some();
+        let imports = Ptr::make_mut(self.wildcard_imports.get_or_insert_default());
 
-        if !already_imported {
-            Ptr::make_mut(self.wildcard_imports.get_or_insert_default()).push(new_import);
-        }
+        // The most recent import takes precedence, so a repeated import moves to the end
+        imports.retain(|import| !import.is_same_instance(&new_import));
+        imports.push(new_import);
     }
 }
 
